@@ -218,6 +218,12 @@ func (w *World) VerifyWith(u *Unit, classes map[string][]string) (res *UnitResul
 		e.ctx.Axiom(env.evalBool(ax.Clause.Expr))
 	}
 	u.entryNames = map[string]Value{}
+	if fn.Name() == "init" && fn.Synthetic != "" && fn.Pkg != nil {
+		// the package initialiser runs once: its guard is false on entry
+		if g, ok := fn.Pkg.Members["init$guard"].(*ssa.Global); ok {
+			st.globals = map[*ssa.Global]Value{g: scalar(types.Typ[types.Bool], smt.False)}
+		}
+	}
 	for _, p := range fn.Params {
 		v := e.fresh("p_"+p.Name(), p.Type())
 		e.assumeValid(st, v)
@@ -429,6 +435,29 @@ func (x *exec) atReturn(st *State, u *Unit, rets []Value, captured []captVar, nr
 			env.names["err"] = rets[res.Len()-1]
 		}
 	}
+	// values worth seeing in a counterexample: results and the contract's let macros on this path
+	e.pathModel = nil
+	for i, r := range rets {
+		if r.P == nil && len(r.L) > 0 && i < res.Len() {
+			for j, l := range e.leaves(res.At(i).Type()) {
+				if j < len(r.L) {
+					e.pathModel = append(e.pathModel, ModelTerm{fmt.Sprintf("result%d%s", i, l.Path), r.L[j].S})
+				}
+			}
+		}
+	}
+	for _, l := range u.Spec.Lets {
+		func() {
+			defer func() { recover() }()
+			v := env.eval(l.Expr)
+			if v.P == nil {
+				for j, t := range v.L {
+					e.pathModel = append(e.pathModel, ModelTerm{fmt.Sprintf("let %s#%d", l.Name, j), t.S})
+				}
+			}
+		}()
+	}
+	defer func() { e.pathModel = nil }()
 	for i, cl := range u.Spec.Ensures {
 		g := x.guardedGoal(env, cl.Expr)
 		e.obligation(st, "post", clauseName(cl, i), cl.Tag, cl.Text, cl.Pos.String(), g)
